@@ -5,6 +5,8 @@ import Fu.Sampled
 import Gs.Top
 import Gs.RouteSum
 import Bd.Script
+import Bd.MergeTruth
+import Bd.MergeReplay
 
 /-! # C01 — property theorems (statements only; proofs live in the family libraries) -/
 
@@ -133,6 +135,70 @@ theorem sampled_rows :
     ∀ (T v : Nat), (∀ e ∈ evTriples s.evs, e.1 ≤ T) → (∀ c ∈ cs, ∀ e ∈ evTriples s.evs, e.1 ≤ c.time) →
       emSumUpTo T (evTriples s'.evs) v = wCount (specHistory w (cs.takeWhile fun c => c.time ≤ T)) v :=
   @Bd.sampled_rows
+end
+
+section
+open Bd Fu Mg
+
+/-- **the replay of a merge commit on one parent branch** (the edit of one file in merge mode, stamp `t` = a mark): the
+branch holds the parent's array `flat f`, the merge commit's diff against this parent is `script`, `ins` are the true
+values of the lines the script inserts.  The edit succeeds silently and leaves a copy that is conflict-free with respect
+to the merged version's true array `rebuild script (flat f) ins`: same length, at every line the mark or the true value -/
+theorem replay_conflict_free :
+    ∀ (t : Nat) (ht : t < END) (hm : t % (Fu.MARK + 1) = Fu.MARK)
+    (f : List Node) (hwf : WF2 f) (script : List (EK × Nat)) (us : List Upd)
+    (htr : translate script 0 (.eq, 0) [] = .ok us)
+    (ins : List Nat) (hc : consumed script = (flat f).length) (hi : insCount script = ins.length)
+    (evs : List Route.Ev) (f' : List Node) (evs' : List Route.Ev) (h : applyUpds true t us f evs = .ok (f', evs')),
+    evs' = evs ∧ WF2 f' ∧ (flat f').length = (rebuild script (flat f) ins).length ∧
+    ∀ i (hi : i < (rebuild script (flat f) ins).length),
+      isMark ((flat f').getD i 0) = true ∨ (flat f').getD i 0 = (rebuild script (flat f) ins)[i] :=
+  @Bd.replay_conflict_free
+
+/-- **one file through one clean merge**: every branch copy is the merge-mode replay of the merge commit's script against
+that parent's true array, all scripts rebuilding the same true array `truth` of the merged version; `truth` carries no
+mark; the lines no parent knows are lines of the merge commit, born at the merge value `day`.  Then `File.Merge` installs
+exactly `truth` and reports exactly one line per line born in the merge commit (none inside a nested merge) -/
+theorem merge_step_truth :
+    ∀ (t day : Nat) (ht : t < END) (hm : t % (Fu.MARK + 1) = Fu.MARK)
+    (mine : List Nat) (others : List (List Nat)) (truth : List Nat)
+    (hrep : ∀ c ∈ mine :: others, Replayed t truth c)
+    (htruth : ∀ x ∈ truth, isMark x = false)
+    (hnew : ∀ i (hi : i < truth.length), knownAt (mine :: others) truth i = false → truth[i] = day),
+    mergeFile day mine others = some (truth, (if isMark day then 0 else 1) * unknownCount (mine :: others) truth) :=
+  @Bd.merge_step_truth
+
+/-- **the whole `BurndownAnalysis.Merge`**: if, for every file name flagged as present, the branch copies are
+conflict-free with respect to a true array `T k`, the merge succeeds; afterwards every participating branch holds, for every
+flagged name, exactly the run-length encoding of the true array (true origin where some branch knew the line, merge author
+and tick where none did; no file where the name is flagged as absent or nobody holds it); every other file name is untouched
+on every branch; the reports appended are, name by name in increasing order, one per line that no branch knew -/
+theorem mergeBranches_conflict_free :
+    ∀ (w : W) (b0 : Nat) (rest : List Nat) (T : Nat → List Nat)
+    (hcf : ∀ k, flagged (mergeFlags w (b0 :: rest)) k = true → ConflictFreeAt w (b0 :: rest) k (T k)),
+    ∃ w', mergeBranches w (b0 :: rest) = .ok w' ∧
+      (∀ k, (∃ v, (k, v) ∈ mergeFlags w (b0 :: rest)) → ∀ b ∈ b0 :: rest,
+        brFile (w'.br b) k =
+          expectedFile (flagged (mergeFlags w (b0 :: rest)) k) (copiesOf w (b0 :: rest) k) (T k) (mergeDay w b0)) ∧
+      (∀ k, (¬ ∃ v, (k, v) ∈ mergeFlags w (b0 :: rest)) → ∀ b, brFile (w'.br b) k = brFile (w.br b) k) ∧
+      w'.evs = w.evs ++ (mergeKeys (mergeFlags w (b0 :: rest))).flatMap fun k =>
+        expectedReports (flagged (mergeFlags w (b0 :: rest)) k) (copiesOf w (b0 :: rest) k) (T k) (mergeDay w b0) :=
+  @Bd.mergeBranches_conflict_free
+
+/-- where every line no copy knows is a line of the merge commit itself, the installed array *is* the true array -/
+theorem mergedTruth_eq_truth :
+    ∀ (copies : List (List Nat)) (truth : List Nat) (day : Nat)
+    (h : ∀ i (hi : i < truth.length), knownAt copies truth i = false → truth[i] = day),
+    mergedTruth copies truth day = truth :=
+  @Bd.mergedTruth_eq_truth
+
+/-- after a conflict-free merge whose merge value is a real tick the merged array carries no mark: the state is again one
+the linear-history theorems start from -/
+theorem mergedTruth_noMark :
+    ∀ (copies : List (List Nat)) (truth : List Nat) (day : Nat)
+    (htruth : ∀ t ∈ truth, isMark t = false) (hday : isMark day = false),
+    ∀ v ∈ mergedTruth copies truth day, isMark v = false :=
+  @Bd.mergedTruth_noMark
 end
 
 end Props.C01
